@@ -6,7 +6,9 @@
 From Coq Require Import ZArith List String Bool.
 Import ListNotations.
 Require Import Verif.lib.PyLite Verif.gen.NegotiateGen Verif.lib.Negotiate Verif.lib.NegBytes Verif.gen.IdentityGen
-               Verif.lib.NegSplit Verif.lib.Identity Verif.lib.IdentityProofs Verif.lib.IdentityBytes Verif.lib.IdentityBytesProofs.
+               Verif.lib.NegSplit Verif.lib.Identity Verif.lib.IdentityProofs Verif.lib.IdentityBytes Verif.lib.IdentityBytesProofs
+               Verif.lib.NegCodec Verif.gen.NegCodecGen Verif.lib.NegWire Verif.lib.IdentityBytesReal Verif.lib.IdentityBytesRealProofs
+               Verif.lib.IdentityKeys Verif.lib.IdentityKeysProofs.
 Local Open Scope Z_scope.
 
 (* "A connection is registered as 'the connection to Tub X' only if the TLS peer presented a certificate whose
@@ -158,17 +160,20 @@ Print Assumptions C05_pending_lookups_answered_by_proven_connections.
    ROUND 5: the same statements over RAW BYTES.  brecv_all is Negotiation.dataReceived from the first byte of the
    connection (PLAINTEXT phase): block splitter (header_verdict, translated), phase dispatch (translated),
    handlePLAINTEXTServer / handlePLAINTEXTClient (translated statement by statement, incl. the listener's lookup and the
-   redirect branch), parseLines, handleENCRYPTED, the translated identity checks, handleDECIDING, switchToBanana's key.
-   decode (UTF-8 decoding), pre_ok / post_ok / decision_ok (all the non-identity checks) and redirect (the listener's
-   redirect table) are universally quantified: nothing is assumed about them. *)
+   redirect branch), handleENCRYPTED, the translated identity checks, handleDECIDING, switchToBanana's key.
+   The header parser (D, parse, has_error, claimed_of), UTF-8 decoding (decode), every non-identity check (pre_chk, post_chk,
+   decision_chk) and the listener's redirect table are universally quantified: nothing is assumed about them.  The
+   C05_real_* corollaries instantiate them with the translated parseLines (strict UTF-8) and the wire-level checks of C13. *)
+Notation brecv cert tubid_of decode D parse has_error claimed_of pre_chk post_chk decision_chk redirect :=
+  (brecv_all cert tubid_of decode D parse has_error claimed_of pre_chk post_chk decision_chk redirect) (only parsing).
 
 (* "A connection is registered as 'the connection to Tub X' only if the TLS peer presented a certificate whose hash is X; a
    client additionally never accepts a peer other than the Tub named in the FURL it dialled" -- for ARBITRARY BYTES in ANY
    chunking, sent by a peer that never stops, also after errors *)
 Theorem C05_bytes_attach_proven :
-  forall (cert : Type) (tubid_of : cert -> list Z) decode pre_ok post_ok decision_ok redirect r my tgt (p : presented cert)
-         (chunks : list (list Z)) k,
-  In k (b_attached (brecv_all cert tubid_of decode pre_ok post_ok decision_ok redirect r my tgt p chunks)) ->
+  forall (cert : Type) (tubid_of : cert -> list Z) decode (D : Type) parse has_error claimed_of pre_chk post_chk decision_chk redirect
+         r my tgt (p : presented cert) (chunks : list (list Z)) k,
+  In k (b_attached (brecv cert tubid_of decode D parse has_error claimed_of pre_chk post_chk decision_chk redirect r my tgt p chunks)) ->
   exists crt, leaf p = Some crt /\ tubid_of crt = k /\ (r = Client -> k = tgt).
 Proof. exact bytes_attach_proven. Qed.
 Print Assumptions C05_bytes_attach_proven.
@@ -178,32 +183,100 @@ Print Assumptions C05_bytes_attach_proven.
    connection parsed, carried no error, passed the earlier checks, and its my-tub-id passed the identity checks against the
    leaf certificate (hence, by C05_identity_is_leaf, no mismatch of claim, certificate and dialled id) *)
 Theorem C05_bytes_no_attach_before_identity :
-  forall (cert : Type) (tubid_of : cert -> list Z) decode pre_ok post_ok decision_ok redirect r my tgt (p : presented cert)
-         (chunks : list (list Z)),
-  b_attached (brecv_all cert tubid_of decode pre_ok post_ok decision_ok redirect r my tgt p chunks) <> [] ->
-  exists hdr d t m, parse_lines decode hdr = Some d /\ dict_has k_error d = false /\ pre_ok d = true /\
-                    handle_hello cert tubid_of r my tgt p (dict_get k_my_tub_id d) = Accept t m.
+  forall (cert : Type) (tubid_of : cert -> list Z) decode (D : Type) parse has_error claimed_of pre_chk post_chk decision_chk redirect
+         r my tgt (p : presented cert) (chunks : list (list Z)),
+  b_attached (brecv cert tubid_of decode D parse has_error claimed_of pre_chk post_chk decision_chk redirect r my tgt p chunks) <> [] ->
+  exists hdr d t m, parse hdr = Ok d /\ has_error d = false /\ pre_chk d = Ok tt /\
+                    handle_hello cert tubid_of r my tgt p (claimed_of d) = Accept t m.
 Proof. exact bytes_no_attach_before_identity. Qed.
 Print Assumptions C05_bytes_no_attach_before_identity.
 
 (* one transport is registered under at most one key, and under none while it is still negotiating *)
 Theorem C05_bytes_at_most_one_attach :
-  forall (cert : Type) (tubid_of : cert -> list Z) decode pre_ok post_ok decision_ok redirect r my tgt (p : presented cert)
-         (chunks : list (list Z)),
-  let st := brecv_all cert tubid_of decode pre_ok post_ok decision_ok redirect r my tgt p chunks in
+  forall (cert : Type) (tubid_of : cert -> list Z) decode (D : Type) parse has_error claimed_of pre_chk post_chk decision_chk redirect
+         r my tgt (p : presented cert) (chunks : list (list Z)),
+  let st := brecv cert tubid_of decode D parse has_error claimed_of pre_chk post_chk decision_chk redirect r my tgt p chunks in
   (List.length (b_attached st) <= 1)%nat /\ (b_phase st <> RP PhBanana -> b_attached st = []).
-Proof. intros. exact (bytes_at_most_one_attach cert tubid_of decode pre_ok post_ok decision_ok redirect r my tgt p chunks). Qed.
+Proof. intros. exact (bytes_at_most_one_attach cert tubid_of decode D parse has_error claimed_of pre_chk post_chk decision_chk redirect r my tgt p chunks). Qed.
 Print Assumptions C05_bytes_at_most_one_attach.
 
 (* in the PLAINTEXT phase (before TLS) nothing the peer says is believed: no identity stored, nothing registered; listeners
    with redirects are covered (redirect is arbitrary) *)
 Theorem C05_bytes_plaintext_knows_nothing :
-  forall (cert : Type) (tubid_of : cert -> list Z) decode pre_ok post_ok decision_ok redirect r my tgt (p : presented cert)
-         (chunks : list (list Z)),
-  let st := brecv_all cert tubid_of decode pre_ok post_ok decision_ok redirect r my tgt p chunks in
+  forall (cert : Type) (tubid_of : cert -> list Z) decode (D : Type) parse has_error claimed_of pre_chk post_chk decision_chk redirect
+         r my tgt (p : presented cert) (chunks : list (list Z)),
+  let st := brecv cert tubid_of decode D parse has_error claimed_of pre_chk post_chk decision_chk redirect r my tgt p chunks in
   b_phase st = RPlaintext -> b_their st = None /\ b_attached st = [].
-Proof. intros. exact (bytes_plaintext_knows_nothing cert tubid_of decode pre_ok post_ok decision_ok redirect r my tgt p chunks H). Qed.
+Proof. intros. exact (bytes_plaintext_knows_nothing cert tubid_of decode D parse has_error claimed_of pre_chk post_chk decision_chk redirect r my tgt p chunks H). Qed.
 Print Assumptions C05_bytes_plaintext_knows_nothing.
+
+(* WHAT A REFUSAL DOES ("aborts the negotiation" is: failure recorded + loseConnection(); the object lives on until
+   connectionLost).  A header block whose handler raised leaves the receive phase, the unread buffer, the registered keys and
+   the record of passed hellos exactly as they were; besides the recorded failure only self.theirTubRef can change, only in the
+   ENCRYPTED phase, and only to the hash of this transport's leaf certificate.  In particular after a refused PLAINTEXT block the
+   object is in the PLAINTEXT phase again and a second GET / 101 is looked at like the first *)
+Theorem C05_bytes_refusal_changes_nothing_but :
+  forall (cert : Type) (tubid_of : cert -> list Z) decode (D : Type) parse has_error claimed_of pre_chk post_chk decision_chk redirect
+         r my tgt (p : presented cert) st hdr st',
+  bhandle cert tubid_of decode D parse has_error claimed_of pre_chk post_chk decision_chk redirect r my tgt p st hdr = (st', true) ->
+  b_phase st' = b_phase st /\ b_attached st' = b_attached st /\ b_passed st' = b_passed st /\ b_buf st' = b_buf st /\
+  b_fail st' <> None /\
+  (b_their st' = b_their st \/
+   (b_phase st = RP PhEncrypted /\ exists crt, leaf p = Some crt /\ b_their st' = Some (tubid_of crt))).
+Proof. exact refusal_changes_nothing_but. Qed.
+Print Assumptions C05_bytes_refusal_changes_nothing_but.
+
+(* ... input alone never ends the object's life (only the hand-over to the Broker or connectionLost do), so after any refusal
+   the next chunk goes through the same code ... *)
+Theorem C05_bytes_never_abandoned :
+  forall (cert : Type) (tubid_of : cert -> list Z) decode (D : Type) parse has_error claimed_of pre_chk post_chk decision_chk redirect
+         r my tgt (p : presented cert) (chunks : list (list Z)),
+  b_phase (brecv cert tubid_of decode D parse has_error claimed_of pre_chk post_chk decision_chk redirect r my tgt p chunks) <> RP PhAbandoned.
+Proof. exact bytes_never_abandoned. Qed.
+Print Assumptions C05_bytes_never_abandoned.
+
+Theorem C05_bytes_keeps_reading :
+  forall (cert : Type) (tubid_of : cert -> list Z) decode (D : Type) parse has_error claimed_of pre_chk post_chk decision_chk redirect
+         r my tgt (p : presented cert) (chunks : list (list Z)) chunk,
+  let st := brecv cert tubid_of decode D parse has_error claimed_of pre_chk post_chk decision_chk redirect r my tgt p chunks in
+  b_phase st <> RP PhBanana ->
+  brecv cert tubid_of decode D parse has_error claimed_of pre_chk post_chk decision_chk redirect r my tgt p (chunks ++ [chunk]) =
+  bdrain cert tubid_of decode D parse has_error claimed_of pre_chk post_chk decision_chk redirect
+         (S (List.length (b_buf st ++ chunk))) r my tgt p (with_bbuf st (b_buf st ++ chunk)).
+Proof. intros. exact (bytes_keeps_reading cert tubid_of decode D parse has_error claimed_of pre_chk post_chk decision_chk redirect r my tgt p chunks chunk H). Qed.
+Print Assumptions C05_bytes_keeps_reading.
+
+(* ... and the identity checks apply to every later hello from scratch: what handleENCRYPTED does with a block (refuse / wait for
+   the decision / register) depends neither on earlier failures nor on a theirTubRef left behind by an earlier rejected hello.
+   (That whatever is registered later is still proven is C05_bytes_attach_proven, which covers every continuation.) *)
+Theorem C05_bytes_hello_evaluation_is_memoryless :
+  forall (cert : Type) (tubid_of : cert -> list Z) (D : Type) parse has_error claimed_of pre_chk post_chk
+         r my tgt (p : presented cert) st1 st2 hdr,
+  let h := handle_encrypted cert tubid_of D parse has_error claimed_of pre_chk post_chk r my tgt p in
+  b_phase st1 = b_phase st2 -> b_attached st1 = b_attached st2 ->
+  snd (h st1 hdr) = snd (h st2 hdr) /\ b_phase (fst (h st1 hdr)) = b_phase (fst (h st2 hdr)) /\
+  b_attached (fst (h st1 hdr)) = b_attached (fst (h st2 hdr)) /\
+  (snd (h st1 hdr) = false -> b_their (fst (h st1 hdr)) = b_their (fst (h st2 hdr))).
+Proof. intros. exact (hello_evaluation_is_memoryless cert tubid_of D parse has_error claimed_of pre_chk post_chk r my tgt p st1 st2 hdr H H0). Qed.
+Print Assumptions C05_bytes_hello_evaluation_is_memoryless.
+
+(* the byte-level statements for the REAL checks: parse = the translated Negotiation.parseLines (strict UTF-8), pre / post /
+   decision checks = evaluateHello, the decider's vocabulary decision and acceptDecision at wire level (lib/NegWire.v, C13),
+   for any endpoint parameters `me` and any table-hash rendering hf *)
+Theorem C05_real_attach_proven :
+  forall (cert : Type) (tubid_of : cert -> list Z) hf me redirect r my tgt (p : presented cert) (chunks : list (list Z)) k,
+  In k (b_attached (real_recv_all hf me cert tubid_of redirect r my tgt p chunks)) ->
+  exists crt, leaf p = Some crt /\ tubid_of crt = k /\ (r = Client -> k = tgt).
+Proof. exact real_attach_proven. Qed.
+Print Assumptions C05_real_attach_proven.
+
+Theorem C05_real_no_attach_before_identity :
+  forall (cert : Type) (tubid_of : cert -> list Z) hf me redirect r my tgt (p : presented cert) (chunks : list (list Z)),
+  b_attached (real_recv_all hf me cert tubid_of redirect r my tgt p chunks) <> [] ->
+  exists hdr d ver t m, parseLines hdr = Ok d /\ dget d error_key = None /\ eval_hello_wire me d = Ok ver /\ forced_chk d = Ok tt /\
+                        handle_hello cert tubid_of r my tgt p (dget d hello_key_tubid_written) = Accept t m.
+Proof. exact real_no_attach_before_identity. Qed.
+Print Assumptions C05_real_no_attach_before_identity.
 
 (* `assert theirTubID` (not executed under python -O): without the asserts the translated checks additionally accept exactly
    the anonymous peer on a listener (no certificate AND no my-tub-id), stored as TubRef(None); every id they accept is still
@@ -231,3 +304,38 @@ Theorem C05_inbound_reference_history : forall k (ms : list (Z * option (list Z)
   In (clid, Some u) (ref_run k ms) -> u = k.
 Proof. exact ref_urls_proven. Qed.
 Print Assumptions C05_inbound_reference_history.
+
+(* ---------------------------------------------------------------------------------------------------------------------
+   THE KEY PATH of "(and getReference on a FURL naming X succeeds over it) only if ...".  Tub.brokers is a dict keyed by TubRef
+   objects; everything about the keys is translated into gen/IdentityGen.v: TubRef._distinguishers (what __eq__ compares and
+   __hash__ hashes), SturdyRef.getTubRef, TubRef.__init__, Tub._getReference's key, Tub.getBrokerForTubRef's decision,
+   evaluateNegotiationVersion1's TubRef(theirTubID).  s is the SturdyRef that SturdyRef(furl) produced (FURL text parsing: C20). *)
+
+(* what "naming X" means: a probe TubRef finds a stored TubRef exactly when their tubID attributes are equal; location hints (and
+   the object name) play no part *)
+Theorem C05_naming_is_tubid : forall a b, dict_match a b = true <-> sr_tub a = sr_tub b.
+Proof. exact dict_match_iff. Qed.
+Print Assumptions C05_naming_is_tubid.
+
+(* after ANY history of negotiations (arbitrary certificates, claims, dialled TubRefs with any hints), detachments and lookups: the
+   Broker that Tub.brokers finds for the TubRef made from the SturdyRef is stored under a key with the SturdyRef's tub id, and runs over
+   a transport whose leaf certificate hashes to that tub id (or is the loopback and the SturdyRef names this very Tub) *)
+Theorem C05_getReference_key_proven : forall (cert : Type) (tubid_of : cert -> list Z) my (evs : list (kevent cert)) k c s,
+  getReference_broker cert (krun cert tubid_of my evs) s = Some (k, c) ->
+  sr_tub k = sr_tub s /\
+  ((conn_loop cert c = true /\ sr_tub s = Some my) \/
+   (conn_loop cert c = false /\ exists x, sr_tub s = Some x /\ proven cert tubid_of (conn_cert cert c) x)).
+Proof. exact getReference_key_proven. Qed.
+Print Assumptions C05_getReference_key_proven.
+
+(* two SturdyRefs naming the same tub id -- other hints, other object name -- are served by the same table entry *)
+Theorem C05_same_tub_same_broker : forall (cert : Type) (t : ktable cert) s1 s2,
+  sr_tub s1 = sr_tub s2 -> getReference_broker cert t s1 = getReference_broker cert t s2.
+Proof. exact getReference_same_tub_same_broker. Qed.
+Print Assumptions C05_same_tub_same_broker.
+
+(* the client's wrong-Tub test, modelled on tub ids in ev1_identity, is TubRef's own (translated) equality *)
+Theorem C05_client_check_is_tubref_eq : forall t target,
+  ostr_eqb (Some t) (Some (tub_of target)) = true -> sr_tub target <> None -> tubref_eqb (tubref_of_id t) target = true.
+Proof. exact client_check_is_tubref_eq. Qed.
+Print Assumptions C05_client_check_is_tubref_eq.
